@@ -49,3 +49,10 @@ Fixpoint distinct_keys (seen : list key) (log : list wop) : nat :=
       else S (distinct_keys (wop_key o :: seen) log')
   end.
 Definition kv_log_keys (log : list wop) : nat := distinct_keys [] log.
+
+(* no key of the list is a prefix of another one (at a different position) *)
+Fixpoint incomparable_all (keys : list key) : bool :=
+  match keys with
+  | [] => true
+  | a :: r => forallb (fun b => negb (has_prefix a b) && negb (has_prefix b a)) r && incomparable_all r
+  end.
